@@ -47,7 +47,7 @@ S0(P) == [ now   |-> Zero,
 SetSum(F(_), S) == LET RECURSIVE Sm(_)
                        Sm(T) == IF T = {} THEN Zero ELSE LET x == CHOOSE y \in T : TRUE IN RAdd(F(x), Sm(T \ {x}))
                    IN Sm(S)
-SetMin(S) == CHOOSE x \in S : \A y \in S : RLe(x, y)
+SetMin(S) == RSetMin(S)
 
 \* ------------------------------------------------------------------ current resource values
 ProfOn(p, t) == ~HasProfile(p) \/ RPos(ValueAt(p, t))
